@@ -10,19 +10,21 @@ SCHEMES = {"implicit": "implicit", "backwardeuler": "implicit", "trapezoidal": "
 
 
 def operator_matrix(rhs, f0, n):
-    """the matrix of a linear space operator, column by column, from the code's own rhs on unit impulses"""
+    """the affine space operator R(Q) = A Q + b read from the code's own rhs: b = R(0), column j of A = R(e_j) - b
+    (b is non-zero with imposed boundary states)"""
     A = np.zeros((n, n))
+    b = np.array(rhs.rhs(fd.field.fdata(f0.model, f0.mesh, [np.zeros(n)]))[0], dtype=float).copy()
     for j in range(n):
         e = np.zeros(n)
         e[j] = 1.0
         f = fd.field.fdata(f0.model, f0.mesh, [e])
-        A[:, j] = rhs.rhs(f)[0]
-    return A
+        A[:, j] = rhs.rhs(f)[0] - b
+    return A, b
 
 
-def relres(M1, Qn, M2, Qo, A, dt):
-    r = M1 @ Qn - M2 @ Qo
-    scale = np.max(np.abs(Qo)) * (1.0 + dt * np.max(np.sum(np.abs(A), axis=1)))
+def relres(M1, Qn, M2, Qo, A, dt, src=0.0):
+    r = M1 @ Qn - M2 @ Qo - src
+    scale = (np.max(np.abs(Qo)) + np.max(np.abs(src))) * (1.0 + dt * np.max(np.sum(np.abs(A), axis=1)))
     return core.ulps(float(np.max(np.abs(r))), 0.0, float(scale) if scale > 0 else 1.0)
 
 
@@ -42,10 +44,16 @@ def lin_cases(rep, rnd, tier):
         a = rnd.choice([1.0, -1.0, 2.0])
         model = fd.conv.model(a)
         rname = rnd.choice(fd.LINEAR_RECONS)
-        rhs = fd.modeldisc.fvm(model, m, fd.recon(rname))
+        # periodic, or imposed (dirichlet) states on both sides: the operator is then affine, R(Q) = A Q + b
+        bctype = rnd.choice(["per", "dirichlet", "dirichlet"])
+        if bctype == "per":
+            rhs = fd.modeldisc.fvm(model, m, fd.recon(rname))
+        else:
+            rhs = fd.modeldisc.fvm(model, m, fd.recon(rname), bcL={"type": "dirichlet", "prim": [rnd.choice([2.0, -1.5, 0.5])]},
+                                   bcR={"type": "dirichlet", "prim": [rnd.choice([1.0, -0.75, 3.0])]})
         q0 = np.array([rnd.uniform(-1, 1) for _ in range(n)])
         f0 = fd.field.fdata(model, m, [q0])
-        A = operator_matrix(rhs, f0, n)
+        A, bvec = operator_matrix(rhs, f0, n)
         cfl = rnd.choice([0.01, 0.1, 0.5, 1.0, 3.0, 10.0, 100.0])
         dt = float(np.min(rhs.calc_timestep(f0, cfl)))
         cn = rnd.choice(list(SCHEMES))
@@ -61,20 +69,20 @@ def lin_cases(rep, rnd, tier):
             Qn = f.data[0].copy()
             sch = SCHEMES[cn]
             if sch == "implicit":
-                rr = relres(I - dt * A, Qn, I, Qo, A, dt)
+                rr = relres(I - dt * A, Qn, I, Qo, A, dt, src=dt * bvec)
                 name = "implicit"
             elif sch == "cn" or (sch == "gear" and s == 0):
-                rr = relres(I - 0.5 * dt * A, Qn, I + 0.5 * dt * A, Qo, A, dt)
+                rr = relres(I - 0.5 * dt * A, Qn, I + 0.5 * dt * A, Qo, A, dt, src=dt * bvec)
                 name = "cn" if sch == "cn" else "gear_start"
             else:
-                r = 3 * Qn - 4 * Qo + Qm - 2 * dt * (A @ Qn)
-                scale = max(np.max(np.abs(Qo)), np.max(np.abs(Qm))) * (1.0 + dt * np.max(np.sum(np.abs(A), axis=1)))
+                r = 3 * Qn - 4 * Qo + Qm - 2 * dt * (A @ Qn + bvec)
+                scale = (max(np.max(np.abs(Qo)), np.max(np.abs(Qm))) + np.max(np.abs(bvec)) * dt) * (1.0 + dt * np.max(np.sum(np.abs(A), axis=1)))
                 rr = core.ulps(float(np.max(np.abs(r))), 0.0, float(scale))
                 name = "bdf2"
             rec = dict(kind="lin", scheme=name, relres=rr, tadv=core.ulps(f.time, t_before + dt, max(abs(f.time), dt)),
-                       cls=cn, n=n, mesh=mk, recon=rname, cfl=cfl, a=a, step=s + 1)
+                       cls=cn, n=n, mesh=mk, recon=rname, cfl=cfl, a=a, step=s + 1, bc=bctype)
             recs.append(rec)
-            rep.nontrivial.add(("lin", cn, n, mk, rname, cfl, a))
+            rep.nontrivial.add(("lin", cn, n, mk, rname, cfl, a, bctype))
             Qm = Qo
     return recs
 
